@@ -19,6 +19,7 @@ ASSUMPTIONS = ['for methods with the instance ignored, index selectors are not m
                'the number of extra positionals / the set of extra keyword names counts as non-ignored unless * / ** is listed']
 
 N = {'quick': 2500, 'thorough': 20000}
+FUZZ_SECONDS = 180      # thorough tier: coverage-guided campaign over the same strategy and oracle (tools/fuzz.py)
 SHARDS = {'quick': 4, 'thorough': 16}
 PATHS = ['fkey', 'keygen', '_keygen', 'call']
 KMS = [k for k in KEYMAPS if not (k['cls'] == 'hashmap' and not k['opt'])]
